@@ -22,16 +22,21 @@ _BASE = {
     'models': ['aligned_alloc'], 'cflags': ['-fno-inline'],
     # path-exploration mode (see paths_rt.c) + CBMC's standard checks (pointer validity incl. dead/deallocated objects)
     'checks': ['--div-by-zero-check', '--paths', 'lifo'], 'rt_extra': ['harness/C27/paths_rt.c'],
-    'spin_loops': True, 'timeout': int(os.environ.get('DEV_TIMEOUT', 1500)), 'must_reach': 'all',
+    'spin_loops': True, 'solver': 'minisat', 'timeout': int(os.environ.get('DEV_TIMEOUT', 1500)), 'must_reach': 'all',
 }
 _LN = {0: 'plain function (serial)', 99: 'stage(f, kStageNoLimit)'}
+
+
+_CTX = {0: 'external caller, idle pool', 1: 'caller is a pool thread', 2: 'pool overloaded by 4096 other tasks (inline whenever allowed)',
+        3: 'pool overloaded, caller at inline depth 31', 4: 'pool overloaded, caller at inline depth 32 (no inlining)',
+        5: 'caller context symbolic: external+idle / pool thread / overloaded pool at inline depth 0, 31, 32'}
 
 
 def lname(l):
     return _LN.get(l, 'stage(f, %d)' % l)
 
 
-def pl(name, pool, nst, gl=0, l1=0, l2=0, l3=0, flt=0, items=2, depth=2, others=1, ctx=1, any_=0, unwind=4, pq=4, mq=2,
+def pl(name, pool, nst, gl=0, l1=0, l2=0, l3=0, flt=0, items=2, depth=2, others=1, ctx=0, any_=0, unwind=4, pq=4, mq=2,
        tiers=('thorough',), src='deliver.cpp', extra=None, **kw):
     defs = {'VF_POOL_N': pool, 'VF_NST': nst, 'VF_GL': gl, 'VF_L1': l1, 'VF_L2': l2, 'VF_L3': l3, 'VF_FILTER': flt,
             'VF_ITEMS': items, 'VF_DEPTH': depth, 'VF_OTHERS': others, 'VF_CTX': ctx, 'VF_POOL_ANY': any_,
@@ -47,7 +52,7 @@ def pl(name, pool, nst, gl=0, l1=0, l2=0, l3=0, flt=0, items=2, depth=2, others=
          "pipeline()'s own wait loops; pool hands out %s; <=%d tasks queued in the pool, <=%d items queued per limited stage; loops "
          'of the real code cut after %d iterations'
          % (shape, pool, items, ', symbolic set of filtered items' if flt else '',
-            'caller is/is not a pool thread, inline depth in {0,31,32}, other pool load 0 or 4096 tasks' if ctx else 'external caller, idle pool',
+            _CTX[ctx],
             others, depth, 'any queued task' if any_ else 'the oldest queued task', pq, mq, unwind))
     d = dict(_BASE)
     d.update({'name': name, 'src': src, 'defs': defs, 'bounds': b, 'tiers': list(tiers), 'unwind': unwind})
@@ -58,10 +63,9 @@ def pl(name, pool, nst, gl=0, l1=0, l2=0, l3=0, flt=0, items=2, depth=2, others=
 _Q = ('quick', 'thorough')
 INSTANCES = [
     pl('g_s_p1', 1, 1, tiers=_Q),
-    pl('dev1', 1, 1, depth=0, ctx=0),
-    pl('dev2', 1, 1, depth=1, ctx=0),
-    pl('dev3', 1, 1, depth=2, ctx=0),
-    pl('dev4', 1, 1, depth=2, ctx=1),
-    pl('dev5', 1, 2, l1=2, depth=2, ctx=0),
-    pl('dev6', 2, 2, gl=2, l1=99, depth=2, ctx=0),
+    pl('g_x2_s_p1', 1, 2, l1=2, tiers=_Q),
+    pl('g2_xu_s_p2', 2, 2, gl=2, l1=99, tiers=_Q),
+    pl('g_f_s_p1', 1, 2, flt=1, tiers=_Q),
+    pl('g_x_s_p0', 0, 2, tiers=_Q),
+    pl('g_x_s_p1_c2', 1, 2, ctx=2, tiers=_Q),
 ]
